@@ -1396,6 +1396,7 @@ int EGLPNUM_TYPENAME_ILLbasis_factor (
 		rval = EGLPNUM_TYPENAME_ILLfactor (lp->f, lp->baz, lp->matbeg, lp->matcnt,
 											lp->matind, lp->matval, &nsing, &singr, &singc);
 		CHECKRVALG (rval, CLEANUP);
+		QSVERIF_EVENT("lu.factor.EGLPNUM_TYPENAME", nsing, lp->O->nrows);
 
 		if (nsing != 0)
 		{
@@ -1491,6 +1492,7 @@ int EGLPNUM_TYPENAME_ILLbasis_update (
 
 	*refactor = 0;
 	rval = EGLPNUM_TYPENAME_ILLfactor_update (lp->f, y, lindex, refactor);
+	QSVERIF_EVENT("lu.update.EGLPNUM_TYPENAME", rval, *refactor);
 	if (rval == E_FACTOR_BLOWUP || rval == E_UPDATE_SINGULAR_ROW
 			|| rval == E_UPDATE_SINGULAR_COL)
 	{
